@@ -414,7 +414,7 @@ def obligations(tier, seed):
                           budget_s=budget))
     obs.append(twin("c19.step.twin", "harness.c19", "h_step", {"op": "get", "n": 3, "sizes": [1], "twin": True}))
     for n in ((2, 3) if q else (2, 3, 4)):
-        for per in ((1, n) if q else (1, 2, n, n + 1)):
+        for per in sorted(set((1, n) if q else (1, 2, n, n + 1))):
             obs.append(ob("c19.seq2.n%d.per%d" % (n, per), "harness.c19", "h_seq2",
                           {"n": n, "sizes": [1], "pers": [per], "fills": [2], "pres": [0, 1]},
                           budget_s=400 if q else 1500))
